@@ -36,7 +36,12 @@ func NewArray() *Array {
 }
 
 // newArrayWithParser returns a new array message.
-func newArrayWithParser(parser *Parser) (*Array, error) {
+func newArrayWithParser(parser *Parser, depth int) (*Array, error) {
+	// Arrays are parsed recursively: the nesting that a peer can ask for has to be bounded,
+	// otherwise a stream of array headers exhausts the goroutine stack and aborts the process.
+	if maxArrayDepth <= depth {
+		return nil, fmt.Errorf(errorInvalidArrayDepth, maxArrayDepth)
+	}
 	numBytes, err := parser.nextLineBytes()
 	if err != nil {
 		return nil, err
@@ -52,7 +57,7 @@ func newArrayWithParser(parser *Parser) (*Array, error) {
 	// Gets all array messages
 	msgs := make([]*Message, 0, min(arraySize, initialArrayCapacity))
 	for n := 0; n < arraySize; n++ {
-		msg, err := parser.Next()
+		msg, err := parser.next(depth + 1)
 		if err != nil {
 			return nil, err
 		}
